@@ -102,6 +102,47 @@ func (e *eng) knownWitnesses() {
 			c.Known("fat-read-past-eof", n > 100, fmt.Sprintf("700-byte file, Seek(600), Read into 4096 bytes returned %d bytes (100 remain)", n))
 		}
 	}
+	// fat-empty-write-not-noop: an empty Write after a Seek past EOF extends the file; at EOF of a file of
+	// exactly one cluster it panics (index out of range)
+	if e.prop != "C08" {
+		if v, err := mkVol(volCfg{Kind: 12, Size: 4 * mib}); err == nil { // 1 KiB clusters
+			grown, panicked := int64(-1), ""
+			_ = safely(func() error {
+				f, err := v.fs.OpenFile("a.bin", os.O_CREATE|os.O_RDWR)
+				if err != nil {
+					return err
+				}
+				f.Seek(10, io.SeekStart)
+				if _, err := f.Write(nil); err != nil {
+					return err
+				}
+				f.Close()
+				if des, err := v.fs.ReadDir("."); err == nil {
+					for _, de := range des {
+						if info, e2 := de.Info(); e2 == nil && de.Name() == "a.bin" {
+							grown = info.Size()
+						}
+					}
+				}
+				return nil
+			})
+			if perr := safely(func() error {
+				f, err := v.fs.OpenFile("b.bin", os.O_CREATE|os.O_RDWR)
+				if err != nil {
+					return err
+				}
+				if _, err := f.Write(make([]byte, v.prevBPC())); err != nil {
+					return err
+				}
+				_, err = f.Write([]byte{})
+				return err
+			}); perr != nil && errClass(perr) == "panic" {
+				panicked = perr.Error()
+			}
+			c.Known("fat-empty-write-not-noop", grown == 10 && panicked != "",
+				fmt.Sprintf("FAT12 4 MiB: new file, Seek(10), Write(nil): listed size %d (want 0); file of exactly one cluster, Write([]byte{}) at EOF: %q", grown, panicked))
+		}
+	}
 	// fat32-geometry-narrow-integers: sectors-per-FAT is a uint16 and wraps above 256 GiB
 	if e.prop != "C01" {
 		if v, err := mkVol(volCfg{Kind: 32, Size: 300 * gib, BS: 512}); err == nil {
